@@ -1,6 +1,8 @@
 package main
 
 import (
+	"go/token"
+	"sort"
 	"regexp/syntax"
 	"sync"
 	gopath "path"
@@ -296,10 +298,27 @@ var overrides = map[string]extFn{
 		return append([]value{}, b...)
 	},
 	"luahelper-lsp/langserver/filefolder.IsFileExist": func(e *Engine, _ *frame, _ *ssa.Function, a []value) value {
-		_, ok := e.vfs[e.needStr(a[0], "IsFileExist")]
-		return ok
+		if p, isC := a[0].(string); isC {
+			_, ok := e.vfs[p]
+			return ok
+		}
+		// symbolic path: compare with every virtual file (forks on symbolic equality)
+		names := make([]string, 0, len(e.vfs))
+		for n := range e.vfs {
+			names = append(names, n)
+		}
+		sort.Strings(names)
+		for _, n := range names {
+			if e.truth(e.strBinop(token.EQL, a[0], n)) {
+				return true
+			}
+		}
+		return false
 	},
 	"luahelper-lsp/langserver/filefolder.IsDirExist": func(e *Engine, _ *frame, _ *ssa.Function, a []value) value {
+		if _, isC := a[0].(string); !isC && len(e.vfs) == 0 {
+			return false
+		}
 		return e.vfsIsDir(e.needStr(a[0], "IsDirExist"))
 	},
 	"luahelper-lsp/langserver/log.Debug": func(*Engine, *frame, *ssa.Function, []value) value { return nil },
@@ -683,8 +702,26 @@ var natives = map[string]extFn{
 		if len(strBytes(a[1])) < regexMinLen(re.String()) {
 			return []value(nil) // shorter than the shortest string the pattern can match: no match
 		}
-		e.unsupported("regexp.FindAllString with symbolic string long enough to match: " + re.String())
-		return nil
+		// small domains: concretise the string (forks over the feasible byte values) and match natively
+		b := strBytes(a[1])
+		prod := 1
+		for _, c := range b {
+			if sv, isSym := c.(*symv); isSym {
+				d := e.dom[sv.t.id]
+				if d == nil || len(d.vals) == 0 {
+					prod = 1 << 30
+					break
+				}
+				prod *= len(d.vals)
+				if prod > 4096 {
+					break
+				}
+			}
+		}
+		if prod > 4096 {
+			e.unsupported("regexp.FindAllString with symbolic string long enough to match: " + re.String())
+		}
+		return strSliceVal(re.FindAllString(string(e.concBytes(b)), int(sext(a[2].(uint64), 64))))
 	},
 	"(time.Time).Unix":     func(e *Engine, _ *frame, _ *ssa.Function, a []value) value { return uint64(0) },
 	"(time.Time).UnixNano": func(e *Engine, _ *frame, _ *ssa.Function, a []value) value { return uint64(0) },
